@@ -74,6 +74,16 @@ Theorem C07_wsgi_empty_means_end : forall cl data caps ops,
 Proof. exact wsgi_empty_means_end. Qed.
 Print Assumptions C07_wsgi_empty_means_end.
 
+(* after any history, exhaust(chunk_size) with a positive (or -1) chunk size leaves the stream
+   at eof: its loop ends because read() returned nothing, never because the model's fuel ran
+   out *)
+Theorem C07_wsgi_exhaust_reaches_eof : forall cl data caps ops chunk r st',
+  0 <= cl -> forallb wop_ok ops = true -> (chunk = -1 \/ 0 < chunk) ->
+  let st0 := w_init cl (src0 data caps) in
+  wstep true (WExhaust chunk) (wend (wrun true ops st0) st0) = (r, st') -> w_eof st' = true.
+Proof. exact wsgi_exhaust_reaches_eof. Qed.
+Print Assumptions C07_wsgi_exhaust_reaches_eof.
+
 (* the executable oracle the harness applies to the real stream accepts the model on every
    history *)
 Theorem C07_w_oracle_sound : forall cl data caps ops,
